@@ -219,7 +219,7 @@ class RecordCall(object):
             rv = None
         st.trace.append(Event("repo-call", meth=func.qualname, args=[engine.to_val(st, a) for a in args],
                               kwargs={k: engine.to_val(st, v) for k, v in kwargs.items()}, site=engine.site(fr, node),
-                              held=list(st.held), ret=rv))
+                              held=list(st.held), ret=rv, star=None if isinstance(star, TupleV) else star, starkw=starkw))
         yield st, ret
 
 
